@@ -380,12 +380,71 @@ impl Part for NoLimit {
     }
 }
 
+// ---------------------------------------------------------------- limits smaller than any message
+
+#[derive(Clone, Debug, Serialize, Deserialize, PartialEq, Eq, Hash)]
+pub struct TinyCase {
+    pub limit: u8,
+    pub at_caller: bool,
+    pub at_callee: bool,
+}
+
+pub struct TinyLimits;
+impl Part for TinyLimits {
+    type Case = TinyCase;
+    fn name(&self) -> &'static str { "tiny-limits" }
+    fn rule(&self) -> &'static str {
+        "a configured maximum of 0-20 bytes (smaller than the header frame of any request or response; 0 is a legal value and is not 'unset') at the caller, the callee or both: every RPC is refused with an error for that RPC only - it returns at once or within bounded virtual time, the handler is never reached when the request is refused by the sender, and the connection stays listed; non-trivial = every case; distinct by case"
+    }
+    fn fixed_cases(&self) -> Vec<TinyCase> {
+        vec![TinyCase { limit: 0, at_caller: true, at_callee: false }, TinyCase { limit: 0, at_caller: false, at_callee: true }, TinyCase { limit: 0, at_caller: true, at_callee: true }]
+    }
+    fn strategy(&self, _t: Tier) -> BoxedStrategy<TinyCase> {
+        (0u8..21, any::<bool>(), any::<bool>()).prop_filter_map("limit somewhere", |(limit, at_caller, at_callee)| (at_caller || at_callee).then_some(TinyCase { limit, at_caller, at_callee })).boxed()
+    }
+    fn run(&self, c: &TinyCase, obs: &mut Obs) -> Result<(), Fail> {
+        let c = c.clone();
+        run_sim(8, 2, |sim| async move {
+            let mut sa = NodeSpec::new(0);
+            sa.config.max_frame_size = c.at_caller.then_some(c.limit as usize);
+            let mut sb = NodeSpec::new(1);
+            sb.config.max_frame_size = c.at_callee.then_some(c.limit as usize);
+            let a = sim.node_with(sa)?;
+            let b = sim.node_with(sb)?;
+            match within(20_000, a.net.connect(b.addr())).await {
+                Ok(Ok(_)) => {}
+                _ => return Err(Fail::Inconclusive("connect failed".into())),
+            }
+            for i in 0..3u64 {
+                let ctl = Ctl { id: i, delay_ms: 0, status_idx: 0, resp_len: 5, resp_hdrs: 0, mode: 0 };
+                let t0 = sim.fabric.now_ms();
+                match within(60_000, a.net.rpc(b.id(), ctl_request("/tiny", &[], &ctl, 40))).await {
+                    Err(()) => vfail!("c15:hang", "rpc with a maximum of {} bytes (caller={} callee={}) did not return", c.limit, c.at_caller, c.at_callee),
+                    Ok(Ok(r)) => vfail!("c15:oversize-delivered", "a maximum of {} bytes is configured (caller={} callee={}), every frame of every message exceeds it, yet the RPC was answered with status {}", c.limit, c.at_caller, c.at_callee, r.status().to_u16()),
+                    Ok(Err(_)) => {}
+                }
+                if c.at_caller {
+                    vensure!(sim.fabric.now_ms() - t0 <= 1, "c15:sender-not-immediate", "caller-side refusal took {} ms", sim.fabric.now_ms() - t0);
+                    vensure!(b.rec.starts_of(i).is_empty(), "c15:sent-oversize", "request refused by the sender still reached the handler");
+                }
+                vensure!(a.net.peers().contains(&b.id()), "c15:connection-torn-down", "after a refused RPC the caller no longer lists the callee");
+            }
+            sim.health()?;
+            check_no_panics("during tiny-limit probes")?;
+            obs.evals(3);
+            obs.nontrivial(&c);
+            Ok(())
+        })
+    }
+}
+
 pub fn run(tier: Tier) -> i32 {
     let mut ctx = Ctx::new("C15", tier);
     ctx.assume("frame sizes are computed by the hand-written reference codec (refmodel::wire)");
     ctx.assume("virtual-time fabric; 'never a hang' is a virtual deadline of 60 s per RPC");
     ctx.run_part(Codec, tier.pick(5_000, 1_000_000));
     ctx.run_part(Net, tier.pick(1_500, 150_000));
+    ctx.run_part(TinyLimits, tier.pick(40, 600));
     ctx.run_part(NoLimit, tier.pick(10, 150));
     ctx.finish()
 }
